@@ -1103,10 +1103,10 @@ class MyPyAstVisitor:
                 return_type=self.mypy_type_to_abstract_type(mypy_type.ret_type),
             )
         elif isinstance(mypy_type, mp_types.AnyType):
-            if mypy_type.type_of_any == mp_types.TypeOfAny.from_unimported_type:
+            if mypy_type.type_of_any == mp_types.TypeOfAny.from_unimported_type and mypy_type.missing_import_name:
                 # If the Any type is generated b/c of from_unimported_type, then we can parse the type
-                # from the import information
-                missing_import_name = mypy_type.missing_import_name.split(".")[-1]  # type: ignore[union-attr]
+                # from the import information (a variable of such a type that is used as a type carries no name)
+                missing_import_name = mypy_type.missing_import_name.split(".")[-1]
                 name, qname = self._find_alias(missing_import_name)
 
                 if not qname:  # pragma: no cover
